@@ -17,6 +17,8 @@
 EXTENDS KeyFormats, TLC
 CONSTANTS MCNets,        \* networks enumerated
           MCHints,       \* hint sets enumerated for the other networks
+          MCTargets,     \* networks a key is moved to by network_change
+          MCMaxOps,      \* calls made on an object before the export
           MCPlain        \* networks with full variety: all secret classes, plain and HD keys, all 32 hint sets
 
 ToyX(s) == Rev(s)
@@ -112,8 +114,9 @@ RefImport(r, hv) ==
                 rewif |-> IF p.ext THEN XPayload(kk, kk.priv) ELSE <<>>]
 
 (* ---------------- state machine: choose, export, import ---------------- *)
-VARIABLES phase, k, fmt, h, repr, res
-vars == <<phase, k, fmt, h, repr, res>>
+\* memo: the WIF payload a reference object remembers from an earlier wif() call (<<>>: none); nops: calls made so far
+VARIABLES phase, k, fmt, h, repr, res, memo, nops
+vars == <<phase, k, fmt, h, repr, res, memo, nops>>
 
 Init == /\ phase = "key"
         /\ k \in MCKeys
@@ -121,25 +124,50 @@ Init == /\ phase = "key"
         /\ h = NoHints
         /\ repr = Repr("none", <<>>, <<>>)
         /\ res = Refused
+        /\ memo = <<>>
+        /\ nops = 0
+
+\* calls on the same object before the export (for one key shape per configuration): wif() fills the memo,
+\* network_change moves the key to another network and leaves the memo alone
+HistKey == k.hd /\ k.compressed /\ k.secret \in {<<>>, Secrets[1]} /\ k.x = ToyX(Secrets[1])
+DoOp == /\ phase = "key" /\ HistKey /\ nops < MCMaxOps
+        /\ \/ /\ k.priv
+              /\ memo' = WifPayload(Apply(k, [op |-> "wif", n |-> ""]))
+              /\ k' = Apply(k, [op |-> "wif", n |-> ""])
+           \/ \E n \in MCTargets \ {k.network} :
+                 /\ k' = Apply(k, [op |-> "network_change", n |-> n])
+                 /\ memo' = memo
+        /\ nops' = nops + 1
+        /\ UNCHANGED <<phase, fmt, h, repr, res>>
+
+\* the reference object's WIF export: the memo serves only if it was made for the version byte that is asked for now
+MemoWif == IF memo # <<>> /\ memo[1] = WifVersion(k.network) THEN memo ELSE WifPayload(k)
 
 Choose == /\ phase = "key"
           /\ phase' = "chosen"
-          /\ fmt' \in {f \in Fmts \ {"bip38"} : CanExport(k, f)}
-          /\ h' \in (IF k.network \in MCPlain THEN HintSets ELSE MCHints)
-          /\ UNCHANGED <<k, repr, res>>
+          /\ fmt' \in {f \in (IF nops = 0 THEN Fmts \ {"bip38"} ELSE {"wif", "xprv", "xpub", "hex"}) : CanExport(k, f)}
+          /\ h' \in (IF nops > 0 THEN {NoHints, AllHints} ELSE IF k.network \in MCPlain THEN HintSets ELSE MCHints)
+          /\ UNCHANGED <<k, repr, res, memo, nops>>
 
 DoExport == /\ phase = "chosen"
             /\ phase' = "exported"
-            /\ repr' = Export(k, fmt)
-            /\ UNCHANGED <<k, fmt, h, res>>
+            /\ repr' = IF fmt = "wif" THEN Repr("b58c", MemoWif, <<>>) ELSE Export(k, fmt)
+            /\ UNCHANGED <<k, fmt, h, res, memo, nops>>
 DoImport == /\ phase = "exported"
             /\ phase' = "imported"
             /\ res' = RefImport(repr, HintValsP(k, h, fmt))
-            /\ UNCHANGED <<k, fmt, h, repr>>
-Next == Choose \/ DoExport \/ DoImport
+            /\ UNCHANGED <<k, fmt, h, repr, memo, nops>>
+Next == DoOp \/ Choose \/ DoExport \/ DoImport
 Spec == Init /\ [][Next]_vars
 
 (* ---------------- invariants ---------------- *)
+\* an export shows the key's current attributes only: what the object remembers from earlier calls never shows through
+\* (the memo is keyed by the version byte it was made for, and nothing else the WIF depends on can change)
+ExportIsCurrent == phase \in {"exported", "imported"} => repr = Export(k, fmt)
+\* observers leave the abstract key alone; network_change changes the network and nothing else
+OpsEffect == phase = "key" =>
+                /\ \A o \in ObserverOps : Apply(k, [op |-> o, n |-> ""]) = k
+                /\ \A n \in MCTargets : Apply(k, [op |-> "network_change", n |-> n]) = [k EXCEPT !.network = n]
 \* the reference importer (which never sees the key) meets the constraint; it refuses only unsupported decimal strings
 RoundTrip == phase = "imported" =>
                 /\ Judge(k, fmt, "hd", res, Constraint(k, fmt, "hd", h, {}), repr.v) = "ok"
